@@ -165,7 +165,9 @@ CLAIMED = {
     "C03": {
         "text": "Machine-checked theorems over all kernel answers: every effectful call of every mutating Root operation names ONE component "
                 "relative to a descriptor and never follows it (C05 predicate); remove_all refuses '.'/'..'; a path without a final name "
-                "reduces to 'resolve parent, close, InvalidArgument'. Runtime: whole-sandbox snapshots (root, its parent, siblings): 15 "
+                "reduces to 'resolve parent, close, InvalidArgument'; lookups of either backend (procfs round-trips and the creation of a fresh "
+                "procfs handle included) issue no tree-changing call, and create / create_file / remove_file / remove_dir / rename issue at most "
+                "one. Runtime: whole-sandbox snapshots (root, its parent, siblings): 15 "
                 "operation shapes x 21 escaping spellings, and 15 mutating calls x every relevant boundary x 10 attacker actions; oracle: no "
                 "entry of a never-inside directory is added/removed/replaced/modified.",
         "note": COMMON_NOTE + "Partial: that the parent descriptor is inside the root under attack is C02's (partly assumed) statement; the "
